@@ -193,7 +193,8 @@ if not L.__real__:
 from twisted.cred import error as _error  # noqa: E402
 LoginFailed = _error.LoginFailed
 
-FIELDS = ["username", "realm", "nonce", "uri", "response", "opaque", "qop", "nc", "cnonce", "algorithm"]
+# the last field is a quoted one: a bare value ending the text is cut by splitlines()
+FIELDS = ["username", "realm", "nonce", "uri", "response", "opaque", "qop", "nc", "algorithm", "cnonce"]
 UNQUOTED = ("qop", "nc", "algorithm")
 
 
@@ -306,8 +307,9 @@ def _is_md5(s):
 
 
 def _clean(s):
+    # '0'..'z' without '=': digits, letters and some punctuation; no quote, comma, blank or control byte
     for c in s:
-        if not (lbytes._char_in(c, "abcdefghijklmnopqrstuvwxyzABCDEFGHIJKLMNOPQRSTUVWXYZ0123456789/._-:;<>{}")):
+        if not ("0" <= c <= "z") or c == "=":
             return False
     return True
 
@@ -409,7 +411,7 @@ HARNESSES = [
       [("field == %d" % i, "not delete", "len(sym) == %d" % n) for i in range(10) for n in range(BOUNDS[tier]["x"] + 1)],
       timeout={"quick": 100, "thorough": 1500}),
     H(legit, shards=lambda tier: [("field == %d" % i, "delete") for i in (1, 5, 6, 7, 8, 9)] +
-      [("field == %d" % i, "not delete", "len(sym) == %d" % n) for i in (0, 1, 2, 3, 5, 6, 7, 8)
+      [("field == %d" % i, "not delete", "len(sym) == %d" % n) for i in (0, 1, 2, 3, 5, 6, 7, 9)
        for n in range(1, BOUNDS[tier]["x"] + 1)],
       timeout={"quick": 100, "thorough": 1500}),
     H(forge, shards=lambda tier: [("part == %d" % i, "len(sym) == %d" % n, kd) for i in range(4)
